@@ -53,6 +53,9 @@ func c03Alphabet(thorough bool) []string {
 	// the device part of the source address in the header: naming the other peer's device (which uses the same
 	// numbers and may hold the binding) or omitting it does not change who the writer is
 	a = append(a, "write:B:e1f1:L1lc:limit:ack:2:x", "write:A:e1f1:L1lc:limit:ack:2:n", "write:A:e1f1:L2lc:limit:noack:1:x")
+	// the binding is given up by a delete that omits the device parts (legal, SPINE 7.4.4), or "given up" by one that
+	// names a client feature of the other peer's device (addresses no binding of the sender)
+	a = append(a, "unbind:A:e1f1:L1lc:n", "unbind:B:e1f1:L2lc:n", "unbind:A:e1f1:L1lc:x")
 	// writes to features that cannot be written, and from a feature the peer never announced
 	a = append(a, "write:A:e1f1:L1ms:limit:ack:2", "write:A:e1f1:L1cl:limit:ack:2", "write:A:e1f1:L1x:limit:ack:2",
 		"write:A:e1f9:L1lc:limit:ack:2", "write:A:e2f1:L1lc:limit:ack:2", "write:B:e1f3:L1lc:limit:ack:2")
